@@ -20,7 +20,7 @@ from numbers import Number
 
 from ._mps_obc import MpsMpoOBC, MpoPBC
 from ...initialize import eye
-from ...tensor import tensordot, ncon, vdot, qr, svd, Tensor, YastnError
+from ...tensor import tensordot, ncon, vdot, qr, svd, Tensor, YastnError, Leg
 
 
 def Env(bra, target, **kwargs):
@@ -475,12 +475,16 @@ class EnvParent_3_obc(EnvParent_3):
 
         legs = [self.ket.virtual_leg('first').conj(), self.bra.virtual_leg('first')]
         legv = op.virtual_leg('first').conj()
+        if len(legv.t) == 0:  # operator without any block (vanishing MPO)
+            legv = Leg(self.config, s=legv.s, t=(self.config.sym.zero(),), D=(1,))
         n_lt = ket.config.sym.add_charges(legv.t[0], signatures=(legv.s,), new_signature=-1)
         tmp = eye(self.config, legs=legs, isdiag=False, n=n_lt)
         self.F[-1, 0] = tmp.add_leg(axis=1, leg=legv)
 
         legs = [self.ket.virtual_leg('last').conj(), self.bra.virtual_leg('last')]
         legv = op.virtual_leg('last').conj()
+        if len(legv.t) == 0:
+            legv = Leg(self.config, s=legv.s, t=(self.config.sym.zero(),), D=(1,))
         n_rt = ket.config.sym.add_charges(legv.t[0], signatures=(legv.s,), new_signature=-1)
         tmp = eye(self.config, legs=legs, isdiag=False, n=n_rt)
         self.F[self.N, self.N - 1] = tmp.add_leg(axis=1, leg=legv)
